@@ -466,13 +466,27 @@ impl<'a> Gen<'a> {
                     }
                 }
             }
+            17 if !p.float_regs.is_empty() && self.r.chance(30) => {
+                // floating point / vector constants live in .rodata and are loaded with the full
+                // register width (16-byte SSE constants, 10-byte x87 constants, doubles)
+                b.next_insn();
+                let (f, _, _, fs) = *self.r.pick(p.float_regs);
+                let a = self.rodata + 0x10 * self.r.below(8);
+                if self.r.chance(60) {
+                    b.def(Some(reg(f, fs)), expr("COPY", &[ram(a, fs)]));
+                } else {
+                    b.def(Some(reg(f, fs)), expr("LOAD", &[cst(SPACE_ID, 4), cst(a, p.ptr)]));
+                }
+            }
             17 => {
                 // implicit RAM operands (address varnodes) as input or output
                 b.next_insn();
-                let a = self.data + 8 * self.r.below(16);
+                let a = if self.r.chance(25) { self.rodata + 8 * self.r.below(24) } else { self.data + 8 * self.r.below(16) };
+                let a = if a >= self.rodata && a < self.rodata + 0x1000 && false { a } else { a };
                 if self.r.chance(50) {
                     b.def(Some(reg(r1, p.ptr)), expr("COPY", &[ram(a, p.ptr)]));
                 } else if self.r.chance(50) {
+                    let a = self.data + 8 * self.r.below(16);
                     b.def(Some(ram(a, p.ptr)), expr("COPY", &[reg(r1, p.ptr)]));
                 } else {
                     b.def(Some(reg(r1, p.ptr)), expr("INT_ADD", &[reg(r1, p.ptr), ram(a, p.ptr)]));
@@ -717,6 +731,7 @@ pub const GADGETS: &[&str] = &[
     "rand_no_srand", "mult_malloc", "malloc_deref", "use_after_free", "double_free", "heap_overflow",
     "huge_malloc", "huge_stack", "printf_nonconst", "unchecked_return", "time_srand", "system_sprintf", "stack_overflow_store", "call_helper", "call_helper",
     "string_building", "string_building", "callee_frees", "callee_frees", "realloc_use", "call_helper_ptr", "call_helper_ptr",
+    "dangling_return", "dangling_return", "malloc_deref_paths", "malloc_deref_paths",
 ];
 
 impl<'a> Gen<'a> {
@@ -886,6 +901,57 @@ impl<'a> Gen<'a> {
                 b = call!(b, "realloc", &[ArgV::Reg(sv), ArgV::Const(0x40)]);
                 let v = cst(7, 1);
                 self.i_store(&mut b, sv, 4, v);
+            }
+            "dangling_return" if self.helper != 0 && !p.stack_args => {
+                // make_tmp() { p = malloc(..); free(p); return p; } called from several sites, the
+                // returned pointer is used after each call
+                let target = self.helper + 0x400;
+                for _ in 0..self.r.range(2, 3) {
+                    let next = slots();
+                    b = match self.end_with_call(b, CallTarget::Func(target), next, out) { Some(x) => x, None => return None };
+                    if self.r.chance(70) {
+                        self.i_load(&mut b, sv, ret, 0, p.ptr);
+                    } else {
+                        let v = cst(1, p.ptr);
+                        self.i_store(&mut b, ret, 8, v);
+                    }
+                }
+            }
+            "malloc_deref_paths" => {
+                // the unchecked result of an allocation is accessed on several paths
+                b = call!(b, alloc, &[ArgV::Const(0x40), ArgV::Const(0xcc0)]);
+                self.i_mov_reg(&mut b, sv, ret);
+                let n = self.r.range(2, 4);
+                let join = slots();
+                for k in 0..n {
+                    let here = slots();
+                    let nextc = slots();
+                    b.next_insn();
+                    let idx_reg = p.killed[1 % p.killed.len()];
+                    let cond = self.u(1);
+                    b.def(Some(cond.clone()), expr("INT_EQUAL", &[reg(idx_reg, p.ptr), cst(k, p.ptr)]));
+                    let j0 = b.jmp_tid();
+                    let j1 = b.jmp_tid();
+                    b.jmps.push(json!({"tid": j0, "term": {"mnemonic": "CBRANCH", "goto": {"Direct": tid(format!("blk_{}", hex(here)), &hex(here))}, "condition": cond}}));
+                    b.jmps.push(json!({"tid": j1, "term": {"mnemonic": "BRANCH", "goto": {"Direct": tid(format!("blk_{}", hex(nextc)), &hex(nextc))}}}));
+                    out.push(b);
+                    self.note_addr(here);
+                    let mut hb = Blk::new(here, None);
+                    let v = cst(k, p.ptr);
+                    self.i_store(&mut hb, sv, 8 * k as i64, v);
+                    hb.next_insn();
+                    let jt = hb.jmp_tid();
+                    hb.jmps.push(json!({"tid": jt, "term": {"mnemonic": "BRANCH", "goto": {"Direct": tid(format!("blk_{}", hex(join)), &hex(join))}}}));
+                    out.push(hb);
+                    self.note_addr(nextc);
+                    b = Blk::new(nextc, None);
+                }
+                b.next_insn();
+                let jt = b.jmp_tid();
+                b.jmps.push(json!({"tid": jt, "term": {"mnemonic": "BRANCH", "goto": {"Direct": tid(format!("blk_{}", hex(join)), &hex(join))}}}));
+                out.push(b);
+                self.note_addr(join);
+                b = Blk::new(join, None);
             }
             "call_helper_ptr" if self.helper != 0 && !p.stack_args => {
                 // helper_put(q) { *q = 0; } called with pointers at different offsets into one buffer,
@@ -1451,6 +1517,35 @@ pub fn generate(seed: u64) -> Workload {
         g.end_with_return(b, &mut outb);
         g.note_addr(a);
         subs.push(json!({"tid": tid(format!("sub_{}", hex(a)), &hex(a)), "term": {"name": "helper_put", "blocks": outb.iter().map(|b| b.to_json()).collect::<Vec<_>>(), "calling_convention": p.cconv}}));
+    }
+    if g.helper != 0 {
+        // make_tmp() { p = alloc(0x20); free(p); return p; }
+        let alloc_name = if lkm { "__kmalloc" } else { "malloc" };
+        let free_name = if lkm { "kfree" } else { "free" };
+        let a = g.helper + 0x400;
+        let mut outb = Vec::new();
+        let sv = p.callee_saved[0];
+        let mut ok = false;
+        if let (Some((alloc_addr, _, _, _)), Some((free_addr, _, _, _))) = (g.ext(alloc_name), g.ext(free_name)) {
+            let mut b = Blk::new(a, None);
+            b.def(Some(reg(p.params[0], p.ptr)), expr("COPY", &[cst(0x20, p.ptr)]));
+            if let Some(mut b1) = g.end_with_call(b, CallTarget::Extern(alloc_addr, false), a + 0x40, &mut outb) {
+                b1.def(Some(reg(sv, p.ptr)), expr("COPY", &[reg(p.ret, p.ptr)]));
+                b1.next_insn();
+                b1.def(Some(reg(p.params[0], p.ptr)), expr("COPY", &[reg(sv, p.ptr)]));
+                if let Some(mut b2) = g.end_with_call(b1, CallTarget::Extern(free_addr, false), a + 0x80, &mut outb) {
+                    b2.def(Some(reg(p.ret, p.ptr)), expr("COPY", &[reg(sv, p.ptr)]));
+                    g.end_with_return(b2, &mut outb);
+                    ok = true;
+                }
+            }
+        }
+        if !ok {
+            outb.clear();
+            g.end_with_return(Blk::new(a, None), &mut outb);
+        }
+        g.note_addr(a);
+        subs.push(json!({"tid": tid(format!("sub_{}", hex(a)), &hex(a)), "term": {"name": "make_tmp", "blocks": outb.iter().map(|b| b.to_json()).collect::<Vec<_>>(), "calling_convention": p.cconv}}));
     }
     if g.helper != 0 {
         // release(p) { free(p); }  and  release2(p) { release(p); }  — frees hidden in callees
